@@ -11,10 +11,12 @@ import (
 	"sort"
 	"fmt"
 	"io"
+	"net/http"
 	"net/http/httptest"
 	neturl "net/url"
 	"strconv"
 	"strings"
+	"sync/atomic"
 	"testing"
 	"time"
 
@@ -31,7 +33,8 @@ func TestVerifC06(t *testing.T) {
 	defer cleanup()
 	shapes := vfNewShapes(t, state)
 	var rig *vfTLSRig
-	for _, line := range vio.ops {
+	var expiry map[int]string
+	for lineNo, line := range vio.ops {
 		f := strings.Fields(line)
 		if len(f) < 2 {
 			vio.emit("bad-op")
@@ -57,6 +60,20 @@ func TestVerifC06(t *testing.T) {
 				out = vfCheckAuthOut(info, err, w)
 			}()
 			vio.emit("%s", out)
+		case "caov":
+			// caov <mask> <7 shape tokens A> <7 shape tokens B>: B is checked while A is parked inside the password backend
+			mask, err := strconv.Atoi(f[1])
+			if err != nil || len(f) != 16 {
+				vio.emit("bad-op")
+				continue
+			}
+			vio.emit("%s", vfC06Overlap(state, shapes, mask, f[2:9], f[9:16]))
+		case "caexp":
+			// caexp <mask> <7 shape tokens, cookie exp = soon>: the same cookie while valid and again after its expiry
+			if expiry == nil {
+				expiry = vfC06Expiry(state, shapes, vio.ops)
+			}
+			vio.emit("%s", expiry[lineNo])
 		case "tls":
 			// tls <path> <client cert km|ipin|ipout|foreign|none> <denied 0|1>  — real TLS handshake
 			if len(f) != 4 {
@@ -86,6 +103,148 @@ func TestVerifC06(t *testing.T) {
 			vio.emit("bad-op")
 		}
 	}
+}
+
+// vfC06CheckAuth calls the real checkAuth and renders what it did.
+func vfC06CheckAuth(state *RuntimeState, req *http.Request, mask int) (out string) {
+	w := &vfTrackRW{ResponseRecorder: httptest.NewRecorder()}
+	defer func() {
+		if p := recover(); p != nil {
+			out = "panic"
+		}
+	}()
+	info, err := state.checkAuth(w, req, mask)
+	return vfCheckAuthOut(info, err, w)
+}
+
+// vfC06Overlap: checkAuth(A) is started and parks inside the password backend (if it gets that far); checkAuth(B) runs
+// meanwhile; then the backend answers A. Each result is reported on its own.
+func vfC06Overlap(state *RuntimeState, shapes *vfShapes, mask int, a, b []string) string {
+	for _, tok := range [][]string{a, b} {
+		// state shared by both requests (backend down, closed limiter, deny list) is not varied inside a pair
+		if tok[5] == "error" || tok[6] != "1" || strings.HasSuffix(tok[3], ":denied") {
+			return "bad-op"
+		}
+	}
+	reqA, okA := shapes.build(a, "/some/path")
+	reqB, okB := shapes.build(b, "/some/path")
+	if !okA || !okB {
+		return "bad-op"
+	}
+	real := state.passwordChecker
+	park := &vfParkPw{inner: real, armed: 1, entered: make(chan struct{}), release: make(chan struct{})}
+	state.passwordChecker = park
+	defer func() { state.passwordChecker = real }()
+	call := func(req *http.Request) chan string {
+		done := make(chan string, 1)
+		go func() { done <- vfC06CheckAuth(state, req, mask) }()
+		return done
+	}
+	wait := func(done chan string, d time.Duration) string {
+		select {
+		case out := <-done:
+			return out
+		case <-time.After(d):
+			return ""
+		}
+	}
+	var outA, outB string
+	doneA := call(reqA)
+	select {
+	case <-park.entered:
+	case outA = <-doneA:
+		atomic.StoreInt32(&park.armed, 0) // A never asked the backend: nobody is parked
+	case <-time.After(30 * time.Second):
+		outA = "hung"
+	}
+	doneB := call(reqB)
+	outB = wait(doneB, 250*time.Millisecond) // empty: B is waiting for something; let the backend answer A
+	close(park.release)
+	if outA == "" {
+		if outA = wait(doneA, 30*time.Second); outA == "" {
+			outA = "hung"
+		}
+	}
+	if outB == "" {
+		if outB = wait(doneB, 30*time.Second); outB == "" {
+			outB = "hung"
+		}
+	}
+	return outA + " | " + outB
+}
+
+// vfC06Expiry: every `caexp` op of the run in two passes (all first presentations, one sleep past the latest expiry,
+// then the SAME cookie values again).
+func vfC06Expiry(state *RuntimeState, shapes *vfShapes, ops []string) map[int]string {
+	type item struct {
+		idx    int
+		mask   int
+		tok    []string
+		cookie string
+		out1   string
+	}
+	res := map[int]string{}
+	var items []*item
+	var latest int64
+	for i, line := range ops {
+		f := strings.Fields(line)
+		if len(f) == 0 || f[0] != "caexp" {
+			continue
+		}
+		mask, err := 0, error(nil)
+		if len(f) == 9 {
+			mask, err = strconv.Atoi(f[1])
+		}
+		if len(f) != 9 || err != nil || len(strings.Split(f[6], ":")) != 8 || strings.Split(f[6], ":")[5] != "soon" {
+			res[i] = "bad-op"
+			continue
+		}
+		it := &item{idx: i, mask: mask, tok: f[2:]}
+		for attempt := 0; attempt < 6; attempt++ {
+			req, ok := shapes.build(f[2:], "/some/path")
+			if !ok {
+				it.out1 = "bad-op"
+				break
+			}
+			c, err := req.Cookie(authCookieName)
+			if err != nil {
+				it.out1 = "bad-op"
+				break
+			}
+			exp := shapes.lastSoonExp
+			out := vfC06CheckAuth(state, req, mask)
+			if time.Now().Unix() >= exp {
+				it.out1 = "harness-late" // the machine was too slow: the first presentation may have been late
+				continue
+			}
+			it.cookie, it.out1 = c.Value, out
+			if exp > latest {
+				latest = exp
+			}
+			break
+		}
+		if it.cookie == "" {
+			res[i] = it.out1
+			continue
+		}
+		items = append(items, it)
+	}
+	if len(items) == 0 {
+		return res
+	}
+	time.Sleep(time.Until(time.Unix(latest+1, 0).Add(200 * time.Millisecond)))
+	for _, it := range items {
+		tok := append([]string{}, it.tok...)
+		tok[4] = "none"
+		req, ok := shapes.build(tok, "/some/path")
+		if !ok {
+			res[it.idx] = "bad-op"
+			continue
+		}
+		req.AddCookie(&http.Cookie{Name: authCookieName, Value: it.cookie})
+		res[it.idx] = it.out1 + " | " + vfC06CheckAuth(state, req, it.mask)
+	}
+	return res
 }
 
 func vfDBDigest(t *testing.T, state *RuntimeState) string {
